@@ -73,6 +73,13 @@ class Ctx:
             return self.ok(rule, construct, detail_ok, where, **facts)
         return self.fail(rule, construct, detail_fail, where, **facts)
 
+    def pattern(self, cond, rule, construct, detail_unknown, detail_ok='', where='', **facts):
+        """a whole-shape pattern: recognised => holds; not recognised => undecided (never a violation: another shape may
+        be just as correct)"""
+        if cond:
+            return self.ok(rule, construct, detail_ok, where, **facts)
+        return self.undecided(rule, construct, detail_unknown + ' (shape not recognised: cannot decide)', where, **facts)
+
     def unit(self, name, value):
         self.units[name] = value
 
